@@ -1713,12 +1713,12 @@ def finite_differences(
     spatial_dim = SpatialDim.from_arg(sdim)
     dim = spatial_dim.tensor_dim(data.ndim)
 
+    if not data.is_floating_point():
+        data = data.float()
+
     step_size: Tensor = torch.atleast_1d(as_tensor(spacing, dtype=data.dtype, device=data.device))
     if step_size.ndim > 1 or step_size.shape[0] not in (1, N):
         raise ValueError(f"finite_differences() 'spacing' must be scalar or sequence of length {N}")
-
-    if not data.is_floating_point():
-        data = data.float()
 
     def pad_spatial_dim(data: Tensor, left: int, right: int) -> Tensor:
         pad = [(left, right) if d == spatial_dim else (0, 0) for d in range(data.ndim - 2)]
